@@ -95,6 +95,9 @@ package object
 //@ func EnvFromMap
 //@   ensures result1 == nil ==> result0 != nil && fresh(result0) && fresh(result0.store)
 //@   modifies nothing
+//@   loop 0: invariant fresh(keys) && len(keys) >= 0 && env != nil && fresh(env) && fresh(env.store)
+//@   loop 0: deterministic-by-contract
+//@   loop 1: invariant env != nil && fresh(env) && fresh(env.store)
 
 // C12: every supported Go value becomes the object of the same content
 //@ func NativeToObject
